@@ -10,7 +10,7 @@ def main (args : List String) : IO UInt32 := do
   | ["key"] => loop stdin stdout keyStep (); pure 0
   | ["filter"] => loop stdin stdout filterStep { f := Filter.new 0 0, hashes := [] }; pure 0
   | ["skiplist"] => loop stdin stdout skipStep { maxLevel := 1, nodes := [], spec := [] }; pure 0
-  | ["wm"] => loop stdin stdout wmStep WM2.init; pure 0
+  | ["wm"] => loop stdin stdout wmStep Watermark.init; pure 0
   | ["levels"] => loop stdin stdout levelsStep lvInit; pure 0
   | ["codec"] => loop stdin stdout codecStep (); pure 0
   | _ => IO.eprintln "usage: driver <suite>"; pure 2
